@@ -35,7 +35,7 @@ Cases == UNION {UNION {{[n |-> n, k |-> K(n), subset |-> Asc(S), order |-> o] : 
 
 VARIABLE c
 GenInit == /\ c \in Cases
-           /\ polys = <<>> /\ h = H /\ recv = <<>> /\ sk = <<>> /\ gpk = <<>> /\ coll = <<>> /\ rec = None
+           /\ polys = <<>> /\ h = H /\ recv = <<>> /\ got = <<>> /\ sk = <<>> /\ gpk = <<>> /\ coll = <<>> /\ rec = None
 GenNext == UNCHANGED <<c, vars>>
 GenSpec == GenInit /\ [][GenNext]_<<c, vars>>
 
